@@ -3,6 +3,8 @@ package downsamplex
 import (
 	"fmt"
 	"math"
+	"os"
+	"strconv"
 	"testing"
 
 	"github.com/prometheus/prometheus/tsdb/chunks"
@@ -36,7 +38,7 @@ func TestC36(t *testing.T) {
 			for k := range vals {
 				vals[k] *= scale
 			}
-			yield(vt.Case{"mode": "loop", "res": res, "nc": vt.Int(c["nc"]),
+			yield(vt.Case{"kind": "float", "mode": "loop", "res": res, "nc": vt.Int(c["nc"]),
 				"base": bases[rnd.Intn(len(bases))],
 				"ts":   concretise(rnd, vt.Ints(c["ts"]), r, res), "vs": vals, "ks": c["ks"],
 				"q": []int{0, int(maxOff)}})
@@ -54,7 +56,7 @@ func TestC36(t *testing.T) {
 			}
 			lo := rnd.Intn(1000)
 			ts, vs, ks := randomSeries(rnd, size, rnd.Int63n(3*res1h), rnd.Intn(12), rnd.Intn(6), func(int) int { return lo + rnd.Intn(1000) })
-			c := vt.Case{"mode": "raw", "res": res, "nc": 0, "base": bases[rnd.Intn(len(bases))],
+			c := vt.Case{"kind": "float", "mode": "raw", "res": res, "nc": 0, "base": bases[rnd.Intn(len(bases))],
 				"ts": ts, "vs": vs, "ks": ks, "q": []int{0, int(maxOff)}}
 			if rnd.Intn(3) == 0 {
 				c["mode"] = "loop"
@@ -69,12 +71,41 @@ func TestC36(t *testing.T) {
 			}
 			yield(c)
 		}
+		// phase 2: native histogram series (count and sum aggregates)
+		if p := os.Getenv("VERIF_CASES_DOWNSAMPLEHISTMC"); p != "" {
+			cs, err := vt.ReadNDJSON(p)
+			if err != nil {
+				t.Fatalf("reading histogram cases: %v", err)
+			}
+			i := 0
+			for _, c := range cs {
+				if vt.Int(c["nc2"]) != 1 || vt.Int(c["m"]) != 2 { // level 1 only here: one case per (series, nc1)
+					continue
+				}
+				i++
+				res := []int64{res5m, res1h}[(i+int(vt.Seed()))%2]
+				yield(vt.Case{"kind": "hist", "mode": "loop", "res": res, "nc": vt.Int(c["nc1"]), "base": bases[rnd.Intn(len(bases))],
+					"ts": concretise(rnd, vt.Ints(c["ts"]), vt.Int(c["r"]), res), "ks": c["ks"],
+					"hv": scaleVecs(vt.List(c["hv"]), 1+rnd.Intn(20), 1+rnd.Intn(50)), "gauge": vt.Bool(c["gauge"]), "k": 1,
+					"q": []int{0, int(maxOff)}})
+			}
+		}
+		for i := 0; i < vt.Pick(40, 300); i++ {
+			res := []int64{res5m, res5m, res1h}[rnd.Intn(3)]
+			s := randomHistSeries(rnd, 1+rnd.Intn(vt.Pick(900, 2500)), 1+rnd.Intn(4), rnd.Int63n(3*res1h), rnd.Intn(3) == 0, rnd.Intn(6))
+			c := vt.Case{"kind": "hist", "mode": "raw", "res": res, "nc": 0, "base": bases[rnd.Intn(len(bases))],
+				"ts": s["ts"], "ks": s["ks"], "hv": s["hv"], "gauge": s["gauge"], "k": s["k"], "q": []int{0, int(maxOff)}}
+			if rnd.Intn(2) == 0 {
+				c["mode"], c["nc"] = "loop", 1+rnd.Intn(6)
+			}
+			yield(c)
+		}
 	}
 	vt.Run(t, gen, func(vt.Case) string { return "" }, runC36)
 }
 
 func runC36(c vt.Case) (ev vt.Event) {
-	ev = vt.Event{"chunks": []any{}, "ok": true, "aligned": true, "nc": 0, "msg": "",
+	ev = vt.Event{"chunks": []any{}, "hchunks": []any{}, "ok": true, "aligned": true, "nc": 0, "msg": "",
 		"rb":    map[string]any{"cnt": emptySeq(), "sum": emptySeq(), "min": emptySeq(), "max": emptySeq()},
 		"rberr": "", "got": map[string]any{"kind": "ok", "msg": ""}}
 	defer func() {
@@ -82,6 +113,23 @@ func runC36(c vt.Case) (ev vt.Event) {
 			ev["got"] = map[string]any{"kind": "panic", "msg": fmt.Sprint(r)}
 		}
 	}()
+	if vt.Str(c["kind"]) == "hist" {
+		base, _ := strconv.ParseInt(vt.Str(c["base"]), 10, 64)
+		res := vt.Int64(c["res"])
+		ts, fhs, _ := histOf(base, c)
+		nc := vt.Int(c["nc"])
+		if vt.Str(c["mode"]) != "loop" {
+			nc = 0
+			if len(ts) > 0 {
+				ev["nc"] = downsample.VerifTargetChunkCount(ts[0], ts[len(ts)-1], 60000, res, len(ts))
+			}
+		} else {
+			ev["nc"] = nc
+		}
+		metas := downsample.VerifDownsampleRawHist(ts, fhs, res, nc)
+		ev["hchunks"], ev["ok"], ev["aligned"], ev["msg"] = decodeHistChunks(metas, base, vt.Int(c["k"]))
+		return ev
+	}
 	base, ts, vs := rawOf(c)
 	res := vt.Int64(c["res"])
 	var metas []chunks.Meta
